@@ -389,6 +389,21 @@ func RunBlockWith(w *World, h uint64, castor, groupId []byte, txs ...*types.Tran
 	return rs
 }
 
+// RunPrefix executes txs as a block on adb with the real loop but WITHOUT its after() phase (situation "testing"):
+// the state a later transaction of the same block would see. Returns the receipts and the executor context
+// (stale "gasUsed", collected "refund" requests).
+func RunPrefix(adb *account.AccountDB, h uint64, castor, groupId []byte, txs []*types.Transaction) ([]*types.Receipt, map[string]interface{}) {
+	common.SetBlockHeight(h)
+	hd := Header(h)
+	if castor != nil {
+		hd.Castor = castor
+	}
+	hd.GroupId = groupId
+	b := &types.Block{Header: hd, Transactions: append([]*types.Transaction{}, txs...)}
+	_, rs, ctx := core.VerifC06ExecuteBlockCtx(adb, b, "testing")
+	return rs, ctx
+}
+
 var reqId uint64
 
 func NewTx(typ int32, src, tgt, data, extra string) *types.Transaction {
